@@ -28,13 +28,17 @@ package storage
 //@   ensures [C01.requeue_keeps_later_batches_behind] forall i Int :: {b.batches[i]} old(len(batches)) <= i && i < len(b.batches) ==> b.batches[i] == old(b.batches[i - len(batches)])
 //@   loop 1 invariant -1 <= rangeindex && rangeindex < len(batches)
 
+//@ func BuildSegment
+//@   only_for C01, C05
+//@   ensures [C01.build_returns_an_artifact_or_an_error] err == nil ==> result0 != nil
+
 //@ func (l *PartitionLog) prepareFlush
 //@   only_for C01, C05
 //@   requires l.buffer != nil
-//@   at BuildSegment#1 havoc
 //@   ghost gDrained []RecordBatch = nil
 //@   at Drain#1 after set gDrained = ret0
-//@   ensures [C01.prepare_keeps_every_drained_batch_in_flight] err == nil && result0 != nil ==> l.flushing && sameSlice(l.flushingBatches, gDrained) && len(l.flushingBatches) == len(gDrained) && len(gDrained) == old(len(l.buffer.batches)) && !old(l.flushing)
+//@   at Drain#1 after assert [C01.prepare_drains_the_whole_buffer] len(ret0) == old(len(l.buffer.batches)) && !old(l.flushing) && len(l.buffer.batches) == 0
+//@   ensures [C01.prepare_keeps_every_drained_batch_in_flight] err == nil && result0 != nil ==> l.flushing && sameSlice(l.flushingBatches, gDrained) && len(l.flushingBatches) == len(gDrained)
 //@   ensures [C01.prepare_reports_nothing_only_when_nothing_is_pending] err == nil && result0 == nil ==> (old(l.flushing) || old(len(l.buffer.batches)) == 0) && l.flushing == old(l.flushing) && sameSlice(l.flushingBatches, old(l.flushingBatches))
 
 //@ func (l *PartitionLog) uploadFlush
